@@ -23,7 +23,7 @@ class FV:
         return (tuple(sorted(self.cls)), self.tag)
 
     def __repr__(self):
-        return "{%s}%s" % (",".join(sorted(self.cls)), ("@%s" % self.tag) if self.tag else "")
+        return "{%s}%s" % (",".join(sorted(self.cls)), ("@%s" % (self.tag,)) if self.tag else "")
 
 
 def _sg(c):
